@@ -103,7 +103,6 @@ COMMON = {
     "no-row-twice": "all(inv_(pi(), pi()[r]) == r for r in range(m()))",
     "time-ordered": "all(self._t_bmjd[r] <= self._t_bmjd[r + 1] for r in range(m() - 1))",
     "units-kept": "self.rv.unit is rv.unit and self.rv_err.unit is rv_err.unit",
-    "ties-keep-input-order": "all(implies(self._t_bmjd[r] == self._t_bmjd[r + 1], pi()[r] < pi()[r + 1]) for r in range(m() - 1))",
 }
 ERR_1D = {"uncertainty-paired-with-its-time": "len(self.rv_err.value) == m() and all(self.rv_err.value[r] == rv_err.value[pi()[r]] for r in range(m()))"}
 ERR_COV = {"covariance-rows-and-columns-paired": "self.rv_err.value.shape[0] == m() and self.rv_err.value.shape[1] == m() and "
